@@ -589,6 +589,23 @@ func streamQc(o opts) {
 				enabled = append(enabled, th)
 			}
 			if len(enabled) == 0 {
+				// nobody can move: every thread must be finished or idle, and nothing may be left in the ring
+				stuck := ""
+				for _, th := range ths {
+					if !th.finished && !(th.at == 0 && th.left == 0) && !(th.kind == 15 && th.at == 301) {
+						stuck += fmt.Sprintf(" thread %d (kind %d) at %d", th.tid, th.kind, th.at)
+					}
+				}
+				if stuck != "" {
+					for _, prop := range []string{"C07", "C08"} {
+						m.violate(prop, fmt.Sprintf("%s: after %d steps no thread is enabled but these never finished:%s (head %d tail %d wake %v space %v closed %v drainFree %v acks %d)", ctx, steps, stuck, h, tl, wtok, stok, closed, dfree, acked), ctx)
+					}
+				}
+				if h != tl && !closed {
+					for _, prop := range []string{"C04", "C07"} {
+						m.violate(prop, fmt.Sprintf("%s: after %d steps every thread is idle, the worker waits for a wake token that will never come, yet the ring holds accepted writes (head %d tail %d): lost wake-up", ctx, steps, h, tl), ctx)
+					}
+				}
 				break
 			}
 			th := pick(r, enabled)
